@@ -1,5 +1,6 @@
 from __future__ import annotations
 
+import ast
 import logging
 import pathlib
 import sys
@@ -13,8 +14,11 @@ from itertools import islice
 import asttokens.util
 from asttokens import LineNumbers
 
+from rich.markup import escape
+
 from ._format import enforce_formatting
 from ._format import format_code
+from ._problems import raise_problem
 
 if sys.version_info >= (3, 10):
     from itertools import pairwise
@@ -124,6 +128,25 @@ class Change:  # ChangeSet
         source._check()
 
 
+def _outside_of_snapshots(code):
+    """The syntax tree of the code without the arguments of snapshot(...)
+    calls (which a formatter may normalize)."""
+    try:
+        tree = ast.parse(code)
+    except SyntaxError:
+        return None
+
+    for node in ast.walk(tree):
+        if isinstance(node, ast.Call) and (
+            getattr(node.func, "id", None) == "snapshot"
+            or getattr(node.func, "attr", None) == "snapshot"
+        ):
+            node.args = []
+            node.keywords = []
+
+    return ast.dump(tree)
+
+
 class SourceFile:
     def __init__(self, filename: pathlib.Path):
         self.replacements: list[Replacement] = []
@@ -197,7 +220,16 @@ class SourceFile:
         )
 
         if format_whole_file:
-            new_code = format_code(new_code, self.filename)
+            formatted = format_code(new_code, self.filename)
+
+            if _outside_of_snapshots(formatted) == _outside_of_snapshots(new_code):
+                new_code = formatted
+            else:
+                # never replace the file by something which is not this code
+                # (a formatter which prints nothing, or something else)
+                raise_problem(
+                    f"[b]The formatter changed the meaning of {escape(str(self.filename))}, the new code is used unformatted.[/b]"
+                )
 
         return new_code
 
